@@ -203,11 +203,17 @@ class DictDecoder:
         max_score = -1.0
         config = replace(self.config, fail_on_converter_warnings=True)
         decoder = DictDecoder(config=config, context=self.context)
+        classes = [x for x in classes if self.context.class_type.is_model(x)]
+
+        if not self.config.fail_on_unknown_properties:
+            # Keys that no class knows are ignored, they must not rule every class out
+            keys = {
+                key
+                for key in keys
+                if any(self.context.local_names_match({key}, x) for x in classes)
+            }
 
         for clazz in classes:
-            if not self.context.class_type.is_model(clazz):
-                continue
-
             if self.context.local_names_match(keys, clazz):
                 candidate = None
                 with suppress(Exception):
